@@ -52,7 +52,7 @@ func (e *Env) buildConcPlan(id int) *c12proc {
 			l := r.Intn(ref.NLang)
 			switch r.Intn(3) {
 			case 0:
-				add(plan.Op{Fn: "enc", L: int64(l), E: hx(r.Bytes(ref.EntSizes[r.Intn(5)]))})
+				add(plan.Op{Fn: "enc", L: int64(l), E: hx(r.Bytes(ref.EntSizes[r.Intn(5)])), Arena: r.Intn(2) == 0})
 			case 1:
 				add(plan.Op{Fn: "str", L: int64([]int{l, -1, 10, 9}[r.Intn(4)])})
 			case 2:
